@@ -185,10 +185,10 @@ ESC_FAMILIES = {
 
 
 class Locale0:
-    """a locale without a date order (what _try_parser reads from it)"""
+    """a locale with its own date order, different from the settings' (what _try_parser reads)"""
 
-    info = {}
-    shortname = "en"
+    info = {"date_order": "DMY"}
+    shortname = "xx"
 
 
 class try_parser_escape:
@@ -197,7 +197,7 @@ class try_parser_escape:
 
     name = "date._DateLocaleParser._try_parser/no-escape"
     func = "dateparser.date._DateLocaleParser._try_parser"
-    props = ["C02", "C03"]
+    props = ["C02", "C03", "C01", "C07"]
 
     @classmethod
     def cases(cls, thorough=False):
